@@ -222,7 +222,7 @@ def clause_checks(chk, row, ref, m, order, inp, dictrows):
         chk.violation("Message Length differs from the serialised size", inp, size, ln)
 
 
-def explore(chk, g, rows, per_class, tag):
+def explore(chk, g, rows, per_class, tag, clauses=True):
     from bromelia.base import DiameterMessage
     refs = reference_by_name()
     dictrows = g.rows
@@ -272,6 +272,8 @@ def explore(chk, g, rows, per_class, tag):
             chk.count("unmodelled")
         elif impl != model:
             chk.corr_break("typed-command", inp, impl[:300], model[:300])
+        if mode == "missing" and not clauses:
+            continue
         if mode == "missing":
             if res[0] != "lib":
                 chk.violation("omitting mandatory argument %r is not rejected with a library error" % drop, inp, "library error",
@@ -283,6 +285,8 @@ def explore(chk, g, rows, per_class, tag):
             continue
         if spec != "none" and m.dump().hex() != spec:
             chk.violation("built message is not the RFC 6733 encoding of its command and arguments", inp, spec[:400], m.dump().hex()[:400])
+        if not clauses:
+            continue
         clause_checks(chk, row, refs.get(row["name"]), m, order, inp, dictrows)
         if m.header.application_id is not None:
             # serialise / decode round trip
@@ -291,6 +295,8 @@ def explore(chk, g, rows, per_class, tag):
             mine = c02.canon_msgs([m])
             if back != mine:
                 chk.violation("built message does not survive a serialise/decode round trip", inp, mine[:300], back[:300])
+    if not clauses:
+        return
     # request/answer partner agreement (specification side, from the live classes)
     for row in rows:
         if row["partner"] is not None:
